@@ -253,22 +253,58 @@ func ExtractProtocol(p *core.Prog, rel string) *Protocol {
 	}
 	sort.Strings(pr.Arrays)
 	// constructors: functions whose result is tss.NewMessage(meta, content, wrapper)
+	// (the closing tss.NewMessageWrapper / tss.NewMessage pair may be shared by the constructors through a
+	// private wrapper that only forwards its routing and content parameters)
+	type wrap struct{ meta, content int }
+	wrappers := map[*ssa.Function]wrap{}
+	paramIdx := func(f *ssa.Function, v ssa.Value) int {
+		for i, q := range f.Params {
+			if core.Strip(v) == ssa.Value(q) {
+				return i
+			}
+		}
+		return -1
+	}
 	for _, f := range p.FuncsOfPkg(rel) {
-		if f.Parent() != nil {
+		if f.Parent() != nil || !core.PrivateHelper(f) {
 			continue
 		}
 		for _, cs := range core.CallsTo(f, "~/tss.NewMessage") {
 			call := cs.(*ssa.Call)
-			ct := extractCtor(f, call)
-			if ct == nil {
-				pr.Errs = append(pr.Errs, "constructor "+f.Name()+": content not recognised")
+			if mi, ci := paramIdx(f, call.Call.Args[0]), paramIdx(f, call.Call.Args[1]); mi >= 0 && ci >= 0 {
+				wrappers[f] = wrap{mi, ci}
+			}
+		}
+	}
+	record := func(f *ssa.Function, ct *Ctor) {
+		if ct == nil {
+			pr.Errs = append(pr.Errs, "constructor "+f.Name()+": content not recognised")
+			return
+		}
+		if c := pr.ByContent[ct.Content]; c != nil {
+			if c.Ctor != nil {
+				pr.Errs = append(pr.Errs, "content "+ct.Content+" has more than one constructor")
+			}
+			c.Ctor = ct
+		}
+	}
+	for _, f := range p.FuncsOfPkg(rel) {
+		if f.Parent() != nil {
+			continue
+		}
+		if _, isW := wrappers[f]; !isW {
+			for _, cs := range core.CallsTo(f, "~/tss.NewMessage") {
+				call := cs.(*ssa.Call)
+				record(f, extractCtor(f, call.Call.Args[0], call.Call.Args[1]))
+			}
+		}
+		for _, cs := range core.Calls(f) {
+			call, ok := cs.(*ssa.Call)
+			if !ok || call.Call.IsInvoke() {
 				continue
 			}
-			if c := pr.ByContent[ct.Content]; c != nil {
-				if c.Ctor != nil {
-					pr.Errs = append(pr.Errs, "content "+ct.Content+" has more than one constructor")
-				}
-				c.Ctor = ct
+			if w, isW := wrappers[core.Callee(call)]; isW && core.Callee(call) != nil {
+				record(f, extractCtor(f, call.Call.Args[w.meta], call.Call.Args[w.content]))
 			}
 		}
 	}
@@ -390,9 +426,9 @@ func allocatedRound(fn *ssa.Function, rounds map[string]*Round, depth int) strin
 }
 
 // extractCtor decodes a message constructor from its tss.NewMessage(meta, content, wire) call.
-func extractCtor(f *ssa.Function, call *ssa.Call) *Ctor {
+func extractCtor(f *ssa.Function, metaArg, contentArg ssa.Value) *Ctor {
 	ct := &Ctor{Fn: f, Flags: map[string]string{}, Fields: map[string]ssa.Value{}}
-	content := core.Strip(call.Call.Args[1])
+	content := core.Strip(contentArg)
 	a, ok := content.(*ssa.Alloc)
 	if !ok {
 		return nil
@@ -403,7 +439,7 @@ func extractCtor(f *ssa.Function, call *ssa.Call) *Ctor {
 		ct.Fields[k] = v
 	}
 	// routing literal: a local MessageRouting value
-	meta := core.Strip(call.Call.Args[0])
+	meta := core.Strip(metaArg)
 	var metaAlloc ssa.Value
 	if u, ok := meta.(*ssa.UnOp); ok && u.Op == token.MUL {
 		metaAlloc = u.X
